@@ -298,6 +298,15 @@ func (g *gen) fee(c *c09lib.Cfg, ms []c09lib.M) []sdk.Coin {
 	if r.Chance(3) { // unregistered denomination
 		return []sdk.Coin{sdk.NewCoin("ufoo", sdk.NewIntFromUint64(target))}
 	}
+	if r.Chance(8) { // an unregistered case look-alike of a registered token, valued as if it were that token
+		la := c09lib.LookAlikes[r.Intn(len(c09lib.LookAlikes))]
+		for _, t := range c.Tokens {
+			if strings.ToLower(t.Denom) == strings.ToLower(la) {
+				return []sdk.Coin{sdk.NewCoin(la, conv(t, target))}
+			}
+		}
+		return []sdk.Coin{sdk.NewCoin(la, sdk.NewIntFromUint64(target))}
+	}
 	out = []sdk.Coin{sdk.NewCoin(t1.Denom, conv(t1, target))}
 	if r.Chance(3) {
 		out = append(out, out[0]) // duplicate denomination
@@ -449,7 +458,8 @@ func main() {
 			}
 		}
 		acctsCoq := e.AcctsCoq(ctx, watch)
-		balsCoq := c09lib.BalsCoq(e.Balances(ctx, watch))
+		balsStart := e.Balances(ctx, watch)
+		rel := c09lib.NewRel()
 		histsCoq := e.HistsCoq(ctx, watch)
 		ntx := 1 + r.Intn(3)
 		if fc != nil {
@@ -559,6 +569,8 @@ func main() {
 			dumpA := e.Dump(ctx)
 			balA := e.Balances(ctx, watch)
 			deltas := c09lib.Deltas(balB, balA)
+			rel.AddTx(t)
+			rel.AddDeltas(deltas)
 			diff := e.DiffClasses(dumpB, dumpA)
 			obs := fmt.Sprintf("(mkObs %d %s %s %s %s %s)", class, c09lib.DeltasCoq(deltas), e.AcctsCoq(ctx, sg), e.ExecsCoq(ctx),
 				c09lib.StrListCoq(e.MarksPresent(ctx, ms)), c09lib.DiffCoq(diff))
@@ -585,9 +597,11 @@ func main() {
 		}
 		balA := e.Balances(ctx, watch)
 		ed := c09lib.Deltas(balB, balA)
+		rel.AddDeltas(ed)
+		balsCoq := c09lib.BalsCoqFor(balsStart, rel)
 		eo := fmt.Sprintf("(mkEnd %d %s %s %s)", eclass, c09lib.DeltasCoq(ed), e.ExecsCoq(ctx), e.HistsCoq(ctx, watch))
 		lines = append(lines, fmt.Sprintf("CBlock %s %s %s %s %s %s %s %s", e.CfgCoq(c), acctsCoq, balsCoq, histsCoq, c09lib.StrListCoq(watch),
-			c09lib.StrListCoq(c09lib.Denoms), hx.List(txCoq), eo))
+			c09lib.StrListCoq(rel.List()), hx.List(txCoq), eo))
 		js = append(js, map[string]interface{}{"kind": "block", "level": "ABCI BeginBlock/DeliverTx/EndBlock/Commit", "height": height, "config": c.JSON(), "adversarial_config": adversarial, "sweep": sweepTag(fc),
 			"txs": txJS, "end_block_class": eclass, "end_block_panic": p, "end_block_deltas": ed})
 		dist.Inc(fmt.Sprintf("block:txs=%d", ntx))
